@@ -178,6 +178,25 @@ func registerGhostBuiltins() {
 		}
 		return []LocSet{ls}
 	}
+	ghostLocs["opstate"] = func(env *SpecEnv, n ECall, src string) []LocSet {
+		// every field of every operator struct of the module, at the receiver's reference
+		v := env.eval(n.Args[0])
+		x := env.x
+		ref := v.C[0]
+		if isIface(v.T) {
+			ref = v.pay()
+		}
+		ls := LocSet{Ref: ref, Src: src}
+		for _, im := range x.prog.operatorImpls() {
+			et := im.ptr.(*types.Pointer).Elem()
+			for k, c := range layout(et) {
+				name := fmt.Sprintf("F$%s$%d", typeKey(et), k)
+				x.comp(env.st, name, fieldSort(c.Sort))
+				ls.Comps = append(ls.Comps, name)
+			}
+		}
+		return []LocSet{ls}
+	}
 	ghostLocs["cont"] = func(env *SpecEnv, n ECall, src string) []LocSet {
 		v := env.eval(n.Args[0])
 		ls := LocSet{Ref: tensorRef(v), Src: src}
@@ -237,45 +256,39 @@ func dtypeCodeOfBasic(t types.Type) int {
 	return dtypeCodes[name]
 }
 
-// tensorNew models tensor.New(opts...) for the option patterns gonnx uses.
+// tensorNew models tensor.New(opts...) for the option patterns gonnx uses:
+// WithShape+WithBacking, WithShape+Of, WithBacking alone, FromScalar.
 func (x *Exec) tensorNew(fr *Frame, i *ssa.Call, opts Val) Val {
 	st := fr.curSt
 	pc := fr.curPC
 	n, ok := litInt(opts.slen())
-	if !ok {
-		x.unsupportedf(fr, pc, "tensor.New with a non-literal option count")
+	if !ok || n == 0 {
+		x.unsupportedf(fr, pc, "tensor.New with a non-literal or empty option list")
 		return x.freshVal("tensor", i.Type())
 	}
 	optH := x.comp(st, "E$"+typeKey(opts.T.Underlying().(*types.Slice).Elem())+"$0", elemSort(SInt))
-	var shapeOpt, backOpt string
-	for k := int64(0); k < n; k++ {
-		id := sel2(optH, opts.base(), add(opts.off(), fmt.Sprint(k)))
-		kind := x.ghostGet(st, "co$kind", id)
-		// the options are created right before the call; their kinds are literal after simplification,
-		// but we do not rely on that: use ite-chains.
-		if shapeOpt == "" {
-			shapeOpt = id
-			backOpt = id
+	pick := func(kind string) (string, string) {
+		id, has := "0", "false"
+		for k := int64(0); k < n; k++ {
+			o := sel2(optH, opts.base(), add(opts.off(), fmt.Sprint(k)))
+			isK := eq(x.ghostGet(st, "co$kind", o), kind)
+			id = ite(isK, o, id)
+			has = or(has, isK)
 		}
-		shapeOpt = ite(eq(kind, "1"), id, shapeOpt)
-		backOpt = ite(eq(kind, "2"), id, backOpt)
+		return x.define("opt"+kind, SInt, id), x.define("has"+kind, SBool, has)
 	}
-	if n == 0 {
-		x.unsupportedf(fr, pc, "tensor.New without options")
-		return x.freshVal("tensor", i.Type())
-	}
-	shapeOpt = x.define("shape_opt", SInt, shapeOpt)
-	backOpt = x.define("back_opt", SInt, backOpt)
-	hasShape := eq(x.ghostGet(st, "co$kind", shapeOpt), "1")
-	hasBack := eq(x.ghostGet(st, "co$kind", backOpt), "2")
+	shapeOpt, hasShape := pick("1")
+	backOpt, hasBack := pick("2")
+	ofOpt, hasOf := pick("3")
+	scalOpt, hasScal := pick("4")
+	intH := x.comp(st, "E$int$0", elemSort(SInt))
 	dBase := x.ghostGet(st, "co$base", shapeOpt)
 	dOff := x.ghostGet(st, "co$off", shapeOpt)
 	dLen := x.define("new_rank", SInt, ite(hasShape, x.ghostGet(st, "co$len", shapeOpt), "0"))
-	intH := x.comp(st, "E$int$0", elemSort(SInt))
 	bTag := x.ghostGet(st, "co$tag", backOpt)
 	bPay := x.ghostGet(st, "co$pay", backOpt)
 
-	// which slice type is the backing?
+	// backing slice (if any)
 	var isSliceTag []string
 	bBase, bOff, bLen, dcode := "0", "0", "0", "0"
 	for _, et := range x.backingTypes() {
@@ -291,32 +304,47 @@ func (x *Exec) tensorNew(fr *Frame, i *ssa.Call, opts Val) Val {
 	}
 	bLen = x.define("new_blen", SInt, bLen)
 	total := x.define("new_total", SInt, sx("prod", sel(intH, dBase), dOff, dLen))
-	dimsPos := fmt.Sprintf("(forall ((i Int)) (=> (and (<= 0 i) (< i %s)) (>= (select (select %s %s) (+ %s i)) 1)))", dLen, intH, dBase, dOff)
 	nilSlice := x.define("new_nilbacking", SBool, eq(bBase, "0"))
-	x.oblige(fr, "nopanic", "tensor.New-backing-not-slice", x.contractTags(fr), and(hasBack, not(eq(bTag, "0")), or(isSliceTag...)), pc,
+	dimsPos := fmt.Sprintf("(forall ((i Int)) (=> (and (<= 0 i) (< i %s)) (>= (select (select %s %s) (+ %s i)) 1)))", dLen, intH, dBase, dOff)
+
+	x.oblige(fr, "nopanic", "tensor.New-backing-not-slice", x.contractTags(fr), implies(hasBack, and(not(eq(bTag, "0")), or(isSliceTag...))), pc,
 		"tensor.New panics: WithBacking argument is nil or not a slice", "")
-	x.oblige(fr, "nopanic", "tensor.New-dim-not-positive", x.contractTags(fr), dimsPos, pc,
+	x.oblige(fr, "nopanic", "tensor.New-dim-not-positive", x.contractTags(fr), implies(hasShape, dimsPos), pc,
 		"tensor.New panics: a dimension is negative or zero (gorgonia cannot build zero-size tensors)", "")
 	x.oblige(fr, "nopanic", "tensor.New-count", x.contractTags(fr),
-		or(nilSlice, ite(sx(">", dLen, "0"), eq(bLen, total), sx(">=", bLen, "1"))), pc,
+		implies(and(hasBack, hasShape), or(nilSlice, ite(sx(">", dLen, "0"), eq(bLen, total), sx(">=", bLen, "1")))), pc,
 		"tensor.New panics: len(backing) != product of dims", "")
-	// result
+	x.oblige(fr, "nopanic", "tensor.New-empty-backing", x.contractTags(fr),
+		implies(and(hasBack, not(hasShape)), sx(">=", bLen, "1")), pc,
+		"tensor.New panics: WithBacking of an empty slice without a shape", "")
+	x.oblige(fr, "nopanic", "tensor.New-no-type", x.contractTags(fr), or(hasBack, hasOf, hasScal), pc,
+		"tensor.New panics: neither a backing, an element type nor a scalar is given", "")
+
+	// scalar option: dtype from the dynamic type of the boxed scalar
+	sTag := x.ghostGet(st, "co$tag", scalOpt)
+	scode := x.scalarDtype(Val{T: types.NewInterfaceType(nil, nil), C: []string{sTag, x.ghostGet(st, "co$pay", scalOpt)}})
+	x.oblige(fr, "nopanic", "tensor.New-scalar-type", x.contractTags(fr), implies(hasScal, not(eq(scode, "0"))), pc,
+		"tensor.FromScalar with a value that is not a Go scalar", "")
+
+	// result shape
 	t := x.newTensor(st, "tensor")
 	shp := x.newIntArray(st, "shape")
-	// shape array := copy of dims
-	oldS, newS := x.havocComp(st, "E$int$0", elemSort(SInt))
-	x.emit(sx("assert", fmt.Sprintf("(forall ((r Int)) (! (=> (not (= r %s)) (= (select %s r) (select %s r))) :pattern ((select %s r))))", shp, newS, oldS, newS)))
-	x.rangeCopyAxiom(newS, oldS, shp, "0", dLen, dBase, dOff)
-	x.recordStore("E$int$0", shp)
-	x.ghostSet(st, "t$rank", t, dLen)
+	vecShape := and(hasBack, not(hasShape))
+	rank := x.define("new_trank", SInt, ite(hasScal, "0", ite(vecShape, ite(eq(bLen, "1"), "0", "1"), dLen)))
+	x.emit(sx("assert", fmt.Sprintf("(forall ((i Int)) (! (=> (and (<= 0 i) (< i %s)) (= (select (select %s %s) i) (ite %s %s (select (select %s %s) (+ %s i))))) :pattern ((select (select %s %s) i))))",
+		rank, intH, shp, vecShape, bLen, intH, dBase, dOff, intH, shp)))
+	x.ghostSet(st, "t$rank", t, rank)
 	x.ghostSet(st, "t$shp", t, shp)
-	x.ghostSet(st, "t$dtype", t, x.define("new_dtype", SInt, ite(and(hasBack, not(eq(bTag, "0"))), dcode, "12")))
-	usesBacking := not(nilSlice)
+	dt := ite(hasScal, scode, ite(hasBack, dcode, ite(hasOf, x.ghostGet(st, "co$dtype", ofOpt), "0")))
+	x.ghostSet(st, "t$dtype", t, x.define("new_dtype", SInt, dt))
+	usesBacking := and(hasBack, not(nilSlice))
 	freshBuf := x.newRef(st, "zerobuf")
 	x.ghostSet(st, "t$buf", t, ite(usesBacking, bBase, freshBuf))
 	x.ghostSet(st, "t$boff", t, ite(usesBacking, bOff, "0"))
 	x.ghostSet(st, "t$blen", t, ite(usesBacking, bLen, ite(sx(">", dLen, "0"), total, "1")))
-	x.ghostSet(st, "t$zeroed", t, ite(usesBacking, "0", "1"))
-	x.ghostSet(st, "t$cont", t, x.fresh("cont", SInt))
+	x.ghostSet(st, "t$zeroed", t, ite(or(usesBacking, hasScal), "0", "1"))
+	x.ghostSet(st, "t$view", t, "0")
+	x.uninterp("cont_of_backing", []string{SInt, SInt, SInt}, SInt)
+	x.ghostSet(st, "t$cont", t, ite(usesBacking, sx("cont_of_backing", bBase, bOff, bLen), x.fresh("cont", SInt)))
 	return Val{T: i.Type(), C: []string{t}}
 }
